@@ -33,6 +33,8 @@ TCfg == /\ Consume("tcfg")
         /\ privacy' = E.privacy0 /\ flowCounts' = {} /\ pc' = "tick"
 
 TEnd == Consume("end") /\ ~E.panic /\ UNCHANGED vars
+\* a watchdog record appended by the driver (a run that was abandoned and is not in the log)
+THang == Consume("hang") /\ UNCHANGED vars
 
 TUpd == /\ Consume("upd") /\ pc = "key"
         /\ LET t == E.t
@@ -69,7 +71,7 @@ TFrame == /\ Consume("frame") /\ pc \in {"tick", "key"}
           \* and the drawn state satisfies the model's own draw condition
           /\ (sel' = -1 \/ sel' < HopCount(view', selFlow))
 
-TNext == TCfg \/ TEnd \/ TUpd \/ TKey \/ TFrame
+TNext == TCfg \/ TEnd \/ THang \/ TUpd \/ TKey \/ TFrame
 TSpec == TInit /\ [][TNext]_tvars
 
 Accepted == IF TLCGet("stats").diameter - 1 = N THEN TRUE
